@@ -11,6 +11,10 @@ and both readings must agree):
                                sub-controllers returned by `_lookup`)
   mistral/policies/*.py        the rule registry: name, check string, documented operations
   mistral/exceptions.py        http_code of the exception classes raised by guards
+  mistral/api/access_control.py  enforce() must be, statement by statement, the plain delegation
+                               target = caller's ids, creds = to_policy_values + is_admin,
+                               return Enforcer.authorize(...); anything else (an early return or a
+                               branch on the caller before the enforcer call) aborts the translation
   mistral/api/controllers/v2/action_execution.py   SUPPORTED_TRANSITION_STATES
 
 Per exposed method the ordered list of abstract effects of its top-level statements
@@ -659,8 +663,147 @@ def coq_effect(e):
     raise TranslateError('unknown effect %r' % (e,))
 
 
-def extract(repo):
-    """The table as Python data (also used by harness/suites/C16.py)."""
+# ---------------------------------------------------------------------------
+# the shape of access_control.enforce and the rule expressions
+
+ENFORCE_BODY = [
+    "target_obj = {'project_id': context.project_id, 'user_id': context.user_id}",
+    "target_obj.update(target or {})",
+    "policy_context = context.to_policy_values()",
+    "policy_context['is_admin'] = context.is_admin",
+    "_ensure_enforcer_initialization()",
+    "return _ENFORCER.authorize(action, target_obj, policy_context, do_raise=do_raise, exc=exc)",
+]
+ENFORCE_SIG = "action, context, target=None, do_raise=True, exc=exc.NotAllowedException"
+ENSURE_BODY = [
+    "global _ENFORCER",
+    "if not _ENFORCER:\n    _ENFORCER = policy.Enforcer(cfg.CONF)\n    _ENFORCER.register_defaults(policies.list_rules())\n    _ENFORCER.load_rules()",
+]
+
+
+def enforce_shape(repo):
+    """access_control.enforce must do nothing but build the target from the caller's own ids, take the
+    credentials from the context (+ is_admin) and return Enforcer.authorize(...): statement by
+    statement.  Any other statement - an early return / a branch on the caller before the enforcer
+    call in particular - aborts the translation (the model has no such case)."""
+    rel = 'mistral/api/access_control.py'
+    tree = ast.parse(open(os.path.join(repo, rel)).read())
+    fns = {n.name: n for n in tree.body if isinstance(n, ast.FunctionDef)}
+
+    def body_of(fn):
+        b = list(fn.body)
+        if b and isinstance(b[0], ast.Expr) and isinstance(b[0].value, ast.Constant) and isinstance(b[0].value.value, str):
+            b = b[1:]
+        return [ast.unparse(st) for st in b]
+    if 'enforce' not in fns or '_ensure_enforcer_initialization' not in fns:
+        raise TranslateError('%s: enforce / _ensure_enforcer_initialization not found' % rel)
+    fn = fns['enforce']
+    if fn.decorator_list or ast.unparse(fn.args) != ENFORCE_SIG:
+        raise TranslateError('%s: enforce has signature (%s), expected (%s)' % (rel, ast.unparse(fn.args), ENFORCE_SIG))
+    got = body_of(fn)
+    if got != ENFORCE_BODY:
+        diff = next((i for i, (a, b) in enumerate(zip(got, ENFORCE_BODY)) if a != b), min(len(got), len(ENFORCE_BODY)))
+        raise TranslateError('%s: enforce() is not a plain delegation to Enforcer.authorize: statement %d is `%s` '
+                             '(expected `%s`)' % (rel, diff + 1, got[diff] if diff < len(got) else '<missing>',
+                                                  ENFORCE_BODY[diff] if diff < len(ENFORCE_BODY) else '<nothing>'))
+    if body_of(fns['_ensure_enforcer_initialization']) != ENSURE_BODY or fns['_ensure_enforcer_initialization'].decorator_list:
+        raise TranslateError('%s: _ensure_enforcer_initialization has an unrecognised body' % rel)
+    # nothing at module level may rebind enforce / _ENFORCER afterwards
+    for node in tree.body:
+        if isinstance(node, (ast.Assign, ast.AugAssign, ast.AnnAssign)):
+            tg = [t.id for t in ast.walk(node) if isinstance(t, ast.Name) and isinstance(t.ctx, ast.Store)]
+            if 'enforce' in tg or ('_ENFORCER' in tg and ast.unparse(node) != '_ENFORCER = None'):
+                raise TranslateError('%s: module-level rebinding %s' % (rel, ast.unparse(node)))
+    return 'target = caller ids; creds = to_policy_values + is_admin; Enforcer.authorize'
+
+
+def tokenize_check(text):
+    out = []
+    for w in text.replace('(', ' ( ').replace(')', ' ) ').split():
+        out.append(w)
+    return out
+
+
+def parse_check(text):
+    """oslo.policy check string (subset) -> Coq `check` term. Grammar: or < and < not < atom."""
+    # %(name)s contains parentheses: protect them
+    prot = text.replace('%(project_id)s', '%PROJECT%').replace('%(user_id)s', '%USER%')
+    if '%(' in prot:
+        raise TranslateError('check string %r formats an unsupported target key' % text)
+    toks = tokenize_check(prot)
+    pos = [0]
+
+    def peek():
+        return toks[pos[0]] if pos[0] < len(toks) else None
+
+    def take():
+        t = peek()
+        pos[0] += 1
+        return t
+
+    def atom():
+        t = take()
+        if t is None:
+            raise TranslateError('check string %r ends unexpectedly' % text)
+        if t == '(':
+            e = expr()
+            if take() != ')':
+                raise TranslateError('check string %r: missing )' % text)
+            return e
+        if t == '@':
+            return 'CTrue'
+        if t == '!':
+            return 'CFalse'
+        if t.lower() in ('and', 'or', 'not', ')'):
+            raise TranslateError('check string %r: unexpected %s' % (text, t))
+        if ':' not in t:
+            raise TranslateError('check string %r: unsupported atom %s' % (text, t))
+        kind, match = t.split(':', 1)
+        if kind == 'role':
+            return '(CRole %s)' % coq_str(match)
+        if kind == 'rule':
+            return '(CRule %s)' % coq_str(match)
+        keys = {'is_admin': 'KIsAdmin', 'project_id': 'KProject', 'user_id': 'KUser'}
+        if kind in keys:
+            m = {'%PROJECT%': 'MTargetProject', '%USER%': 'MTargetUser'}.get(match)
+            if m is None:
+                if '%' in match:
+                    raise TranslateError('check string %r: unsupported match %s' % (text, match))
+                m = '(MLit %s)' % coq_str(match)
+            return '(CCred %s %s)' % (keys[kind], m)
+        raise TranslateError('check string %r: unsupported check kind %s' % (text, kind))
+
+    def notx():
+        if peek() is not None and peek().lower() == 'not':
+            take()
+            return '(CNot %s)' % notx()
+        return atom()
+
+    def andx():
+        e = notx()
+        while peek() is not None and peek().lower() == 'and':
+            take()
+            e = '(CAnd %s %s)' % (e, notx())
+        return e
+
+    def expr():
+        e = andx()
+        while peek() is not None and peek().lower() == 'or':
+            take()
+            e = '(COr %s %s)' % (e, andx())
+        return e
+    if not toks:
+        return 'CTrue'   # oslo.policy: an empty rule always passes
+    e = expr()
+    if pos[0] != len(toks):
+        raise TranslateError('check string %r: trailing %s' % (text, toks[pos[0]:]))
+    return e
+
+
+
+def extract(repo, lenient=False):
+    """The table as Python data (also used by harness/suites/C16.py; `lenient` only there, for the
+    oracle-only search after the strict translation failed)."""
     mods = load_modules(repo)
     if ROOT_FILE not in mods or ROOT_CLASS not in mods[ROOT_FILE].classes:
         raise TranslateError('no %s in %s' % (ROOT_CLASS, ROOT_FILE))
@@ -702,7 +845,13 @@ def extract(repo):
                     else:
                         raise TranslateError('%s.%s: unknown decorator %s' % (cname, fn.name, dn))
                 mc = MethodCtx(mi, cls, fn, exc_codes)
-                effs, late = mc.effects()
+                try:
+                    effs, late = mc.effects()
+                except TranslateError:
+                    if not lenient:
+                        raise
+                    # oracle-only use (harness/suites/C16.py search): keep the row, claim nothing about it
+                    effs, late = [('Data', 'Call', 'unrecognised')], []
                 methods.append({
                     'cls': cname, 'name': fn.name, 'file': rel, 'verb': VERBS[fn.name],
                     'mounts': mounts[(rel, cname)], 'wrap': wrap, 'expose': [k for k in kinds if k][0],
@@ -765,6 +914,7 @@ def force_conversion(mods):
 
 def translate(repo):
     t = extract(repo)
+    t['enforce_shape'] = enforce_shape(repo)   # fail closed: the model has no case outside this shape
     out = ['(* GENERATED from mistral/api/controllers/**, mistral/policies/*.py, mistral/exceptions.py by',
            '   translate/tr_apitable.py on every run. Do not edit. *)',
            'From Coq Require Import List String.',
@@ -794,5 +944,11 @@ def translate(repo):
     out.append('Definition action_supported_states : list state := [%s].' % '; '.join(
         'RUNNING_DELAYED' if s == 'RUNNING_DELAYED' else s for s in t['supported']))
     out.append('Definition exec_delete_force_conv : force_conv := %s.' % t['force_conv'])
+    out.append('')
+    out.append('(* mistral/api/access_control.py:enforce = %s *)' % t['enforce_shape'])
+    out.append('(* registered default rule expressions (mistral/policies/*.py check_str) *)')
+    out.append('Definition default_policy : policy := [')
+    out.append(';\n'.join('  (%s, %s)' % (coq_str(r['name']), parse_check(r['check'])) for r in t['rules']))
+    out.append('].')
     out.append('')
     return '\n'.join(out)
